@@ -111,6 +111,7 @@ Qed.
 
 (* a body never asks for a delay above D *)
 Definition body_bounded (D : Z) (b : body) : Prop :=
+  0 <= b_sd b <= D /\
   forall st wk ivs, match snd (b_step b st wk ivs) with Some d => d <= D | None => True end.
 
 (* the tail of node.cpp evaluate_impl: advance when the timer fired, else re-arm *)
@@ -139,7 +140,7 @@ Lemma node_eval_post t ivs i D :
   exists p1, r_push r = opt_list p1 ++ opt_list (hd_time (events (i_sch (r_inst r)))) /\
              (forall p, p1 = Some p -> hd_time (events (i_sch (r_inst r))) = Some p).
 Proof.
-  intros Hwf Hb HD r. subst r. unfold node_eval.
+  intros Hwf [_ Hb] HD r. subst r. unfold node_eval.
   set (sn := is_scheduled_now t (i_sch i)).
   destruct (match ivs with [] => true | _ :: _ => forallb v_valid ivs end).
   - pose proof (Hb (i_state i) sn ivs) as Hd.
@@ -482,45 +483,50 @@ Qed.
 Ltac proj := cbn [c_inst c_started c_slot c_nst c_etime i_br i_id i_state i_sch i_samp set_inst set_nst
                     fst snd negb andb orb events tags empty_sched b_sos br_body].
 
-Lemma schedule_start t : t < MAX_DT -> schedule t false t 0 empty_sched = (mkSched [(t, 0)] [], Some t).
+Lemma schedule_start t sd :
+  0 <= sd -> t + sd < MAX_DT ->
+  schedule t false (t + sd) 0 empty_sched = (mkSched [(t + sd, 0)] [], Some (t + sd)).
 Proof.
-  intros H. unfold schedule. rewrite Z.ltb_irrefl.
+  intros H0 H. unfold schedule. replace (t + sd <? t) with false by lia.
   change (0 =? 0) with true. cbn [negb events tags empty_sched ins first_time fst].
-  replace (t <? MAX_DT) with true by lia. reflexivity.
+  replace (t + sd <? MAX_DT) with true by lia. reflexivity.
 Qed.
 
 Lemma child_start_new br id t :
-  0 < t < MAX_DT ->
+  0 < t -> 0 <= b_sd (br_body br) -> t + b_sd (br_body br) < MAX_DT ->
   child_start t (new_child br id t) =
     mkChild (fst (inst_start t (fresh_inst br id t))) true
-            (if b_sos (br_body br) then t else MIN_DT) (if b_sos (br_body br) then t else MAX_DT) t.
+            (if b_sos (br_body br) then t + b_sd (br_body br) else MIN_DT)
+            (if b_sos (br_body br) then t + b_sd (br_body br) else MAX_DT) t.
 Proof.
-  intros Ht. unfold child_start, new_child, inst_start, fresh_inst. proj.
+  intros Ht H0 HM. unfold child_start, new_child, inst_start, fresh_inst. proj.
   destruct (b_sos (br_body br)).
-  - rewrite schedule_start by lia. proj.
-    unfold child_schedule. proj. rewrite Z.max_id, Z.ltb_irrefl.
+  - rewrite schedule_start by lia. proj. set (sd := b_sd (br_body br)) in *.
+    unfold child_schedule. proj. replace (Z.max (t + sd) t) with (t + sd) by lia.
+    replace (t + sd <? t) with false by lia.
     replace (MIN_DT <=? t) with true by (unfold MIN_DT; lia). proj.
-    rewrite Z.leb_refl. replace (t <? MAX_DT) with true by lia. reflexivity.
+    replace (t <=? t + sd) with true by lia. replace (t + sd <? MAX_DT) with true by lia.
+    destruct (t <? t + sd) eqn:E; proj; replace (t + sd <? MAX_DT) with true by lia; reflexivity.
   - proj. replace (t <=? MIN_DT) with false by (unfold MIN_DT; lia). reflexivity.
 Qed.
 
 Lemma sample_consumers_post t ivs c :
-  c_started c = true -> c_etime c = t -> c_slot c <= t ->
+  c_started c = true -> c_etime c = t ->
   exists c2 ps, sample_consumers t ivs c = (c2, ps) /\ Forall (eq t) ps /\
                 c_inst c2 = c_inst c /\ c_started c2 = true /\ c_etime c2 = t /\
                 c_slot c2 = (if existsb v_valid ivs then t else c_slot c).
 Proof.
-  revert c. induction ivs as [|v r IH]; intros c Hst He Hsl; simpl.
+  revert c. induction ivs as [|v r IH]; intros c Hst He; simpl.
   - exists c, []. repeat split; auto.
   - destruct (v_valid v); simpl.
     + assert (One : exists c1, child_schedule false t t c = (c1, Some t, false) /\ c_inst c1 = c_inst c /\
                                c_started c1 = true /\ c_etime c1 = t /\ c_slot c1 = t).
       { unfold child_schedule. rewrite Z.max_id, He, Hst, Z.ltb_irrefl. simpl.
-        replace (c_slot c <=? t) with true by lia. simpl.
+        replace ((c_slot c <=? t) || (t <? c_slot c)) with true by lia. simpl.
         match goal with |- context [if ?b then set_nst _ _ else _] => destruct b end;
           (eexists; split; [reflexivity|]; simpl; repeat split; auto). }
       destruct One as (c1 & E1 & I1 & S1 & T1 & L1). rewrite E1.
-      destruct (IH c1 S1 T1 ltac:(lia)) as (c2 & ps & E2 & F2 & I2 & S2 & T2 & L2). rewrite E2.
+      destruct (IH c1 S1 T1) as (c2 & ps & E2 & F2 & I2 & S2 & T2 & L2). rewrite E2.
       exists c2, (t :: ps). simpl. repeat split; auto; try congruence.
       rewrite L2. destruct (existsb v_valid r); auto.
     + apply IH; auto.
@@ -534,29 +540,29 @@ Proof.
 Qed.
 
 Lemma inst_start_fresh br id t :
-  t < MAX_DT ->
+  0 <= b_sd (br_body br) -> t + b_sd (br_body br) < MAX_DT ->
   fst (inst_start t (fresh_inst br id t)) =
-    mkInst br id 0 (if b_sos (br_body br) then mkSched [(t, 0)] [] else empty_sched) t.
+    mkInst br id 0 (if b_sos (br_body br) then mkSched [(t + b_sd (br_body br), 0)] [] else empty_sched) t.
 Proof.
-  intros Ht. unfold inst_start, fresh_inst. proj. destruct (b_sos (br_body br)); [|reflexivity].
+  intros H0 Ht. unfold inst_start, fresh_inst. proj. destruct (b_sos (br_body br)); [|reflexivity].
   rewrite schedule_start by lia. reflexivity.
 Qed.
 
 Lemma fresh_child_post sp br id t srcs :
-  0 < t < MAX_DT ->
+  0 < t -> 0 <= b_sd (br_body br) -> t + b_sd (br_body br) < MAX_DT ->
   let i' := fst (inst_start t (fresh_inst br id t)) in
   let c1 := child_start t (new_child br id t) in
   exists c2 ps, sample_consumers t (views sp t srcs (c_inst c1)) c1 = (c2, ps) /\ Forall (eq t) ps /\
                 c_inst c1 = i' /\ c_inst c2 = i' /\ c_etime c2 = t /\
                 pre_ok t (due t (views sp t srcs i') i') c2.
 Proof.
-  intros Ht i' c1. unfold c1. rewrite (child_start_new br id t Ht). fold i'. cbn [c_inst].
+  intros Ht H0 HM i' c1. unfold c1. rewrite (child_start_new br id t Ht H0 HM). fold i'. cbn [c_inst].
   set (c1' := mkChild i' true _ _ t).
-  assert (Hsl : c_slot c1' <= t) by (unfold c1'; simpl; destruct (b_sos (br_body br)); unfold MIN_DT; lia).
-  destruct (sample_consumers_post t (views sp t srcs i') c1' eq_refl eq_refl Hsl) as (c2 & ps & E & F & I2 & S2 & T2 & L2).
+  destruct (sample_consumers_post t (views sp t srcs i') c1' eq_refl eq_refl) as (c2 & ps & E & F & I2 & S2 & T2 & L2).
   exists c2, ps. split; [exact E|]. split; [exact F|]. split; [reflexivity|]. split; [exact I2|]. split; [exact T2|].
-  assert (Ei : i' = mkInst br id 0 (if b_sos (br_body br) then mkSched [(t, 0)] [] else empty_sched) t).
-  { unfold i'. apply inst_start_fresh. lia. }
+  set (sd := b_sd (br_body br)) in *.
+  assert (Ei : i' = mkInst br id 0 (if b_sos (br_body br) then mkSched [(t + sd, 0)] [] else empty_sched) t).
+  { unfold i'. apply inst_start_fresh; auto. }
   assert (Ev : existsb (fun v => v_valid v && v_mod v) (views sp t srcs i') = existsb v_valid (views sp t srcs i')).
   { unfold views. rewrite Ei. cbn [i_samp]. apply views_fresh_exists. }
   unfold pre_ok, due. rewrite Ev, I2, L2. unfold c1'. cbn [c_inst c_slot].
@@ -564,8 +570,10 @@ Proof.
   generalize (existsb v_valid (views sp t srcs i')). intros ev.
   rewrite Ei. cbn [i_sch]. destruct (b_sos (br_body br)).
   - split; [split; [constructor; constructor|constructor; [simpl; lia|constructor]]|].
-    unfold is_scheduled_now. cbn [events]. cbn [fst]. rewrite Z.eqb_refl. cbn [orb].
-    split; [discriminate|destruct ev; reflexivity].
+    unfold is_scheduled_now. cbn [events]. cbn [fst].
+    destruct (t + sd =? t) eqn:E0; cbn [orb].
+    + split; [discriminate|]. destruct ev; lia.
+    + split; [auto|]. destruct ev; reflexivity.
   - split; [apply wf_empty|]. unfold is_scheduled_now. cbn [events empty_sched orb].
     split; [reflexivity|]. destruct ev; [reflexivity|unfold MIN_DT; lia].
 Qed.
@@ -586,7 +594,7 @@ Definition store_ok (t : Z) (w : swst) : Prop :=
   end.
 
 Lemma activate_post sp br k t srcs w n o lg :
-  0 < t < MAX_DT -> store_ok t w ->
+  0 < t < MAX_DT -> 0 <= b_sd (br_body br) -> t + b_sd (br_body br) < MAX_DT -> store_ok t w ->
   let next := match w_active w with Some a => negb a | None => false end in
   let i' := fst (inst_start t (fresh_inst br n t)) in
   exists w' c2 lg',
@@ -596,8 +604,8 @@ Lemma activate_post sp br k t srcs w n o lg :
     w_active w' = Some next /\ w_akey w' = Some k /\ getg next w' = Some c2 /\ other_ok w' next /\
     c_inst c2 = i' /\ c_etime c2 = t /\ pre_ok t (due t (views sp t srcs i') i') c2.
 Proof.
-  intros Ht Hs next i'.
-  destruct (fresh_child_post sp br n t srcs Ht) as (c2 & ps & Esc & Fps & Ic1 & Ic2 & Ec2 & Pre2).
+  intros Ht H0 HM Hs next i'.
+  destruct (fresh_child_post sp br n t srcs (proj1 Ht) H0 HM) as (c2 & ps & Esc & Fps & Ic1 & Ic2 & Ec2 & Pre2).
   fold i' in Ic1, Ic2, Pre2.
   assert (Q22 : forall id b, quiet [22; t; id; b]) by (intros; apply quiet_lit; lia).
   assert (Q23 : forall id b, quiet [23; t; id; b]) by (intros; apply quiet_lit; lia).
@@ -815,13 +823,13 @@ Lemma act_path sp D t srcs w n o lg k br :
   Good D m'.
 Proof.
   intros Ht HD Hsrcs Ho Hst Hb m1 m'.
-  destruct (activate_post sp br k t srcs w n o lg Ht Hst) as (w' & c2 & lga & Eact & Qa & Aact & Akey & Ag & Aoth & Ainst & Aet & Apre).
+  destruct (activate_post sp br k t srcs w n o lg Ht (proj1 (proj1 Hb)) ltac:(destruct Hb as [[? ?] _]; lia) Hst) as (w' & c2 & lga & Eact & Qa & Aact & Akey & Ag & Aoth & Ainst & Aet & Apre).
   unfold m', m1. rewrite Eact. split; [reflexivity|].
   set (i' := fst (inst_start t (fresh_inst br n t))) in *.
   set (o1 := match w_active w with Some _ => reset_out (s_set sp) t o | None => o end) in *.
   assert (Ho1 : o_lmt o1 <= t) by (unfold o1; destruct (w_active w); auto; apply reset_out_lmt; auto).
-  assert (Ei : i' = mkInst br n 0 (if b_sos (br_body br) then mkSched [(t, 0)] [] else empty_sched) t).
-  { unfold i'. apply inst_start_fresh. lia. }
+  assert (Ei : i' = mkInst br n 0 (if b_sos (br_body br) then mkSched [(t + b_sd (br_body br), 0)] [] else empty_sched) t).
+  { unfold i'. destruct Hb as [[? ?] _]. apply inst_start_fresh; lia. }
   rewrite <- Ainst in Apre.
   assert (Hs2 : i_samp (c_inst c2) <= t) by (rewrite Ainst, Ei; simpl; lia).
   assert (Hb2 : body_bounded D (br_body (i_br (c_inst c2)))) by (rewrite Ainst, Ei; simpl; exact Hb).
@@ -1417,15 +1425,16 @@ Qed.
 
 (* what a freshly selected instance is, and what it sees *)
 Lemma fresh_sees_held sp br id t srcs :
-  t < MAX_DT ->
+  0 <= b_sd (br_body br) -> t + b_sd (br_body br) < MAX_DT ->
   let i0 := fst (inst_start t (fresh_inst br id t)) in
   i_state i0 = 0 /\ i_id i0 = id /\ i_br i0 = br /\ i_samp i0 = t /\
-  events (i_sch i0) = (if b_sos (br_body br) then [(t, 0)] else []) /\
+  events (i_sch i0) = (if b_sos (br_body br) then [(t + b_sd (br_body br), 0)] else []) /\
   views sp t srcs i0 = map (fun s => mkIv (is_some (fst s)) true (match fst s with Some v => v | None => 0 end))
                            (bound_srcs sp br srcs) /\
-  due t (views sp t srcs i0) i0 = b_sos (br_body br) || existsb (fun s => is_some (fst s)) (bound_srcs sp br srcs).
+  due t (views sp t srcs i0) i0 =
+    (b_sos (br_body br) && (b_sd (br_body br) =? 0)) || existsb (fun s => is_some (fst s)) (bound_srcs sp br srcs).
 Proof.
-  intros Ht i0. unfold i0. rewrite (inst_start_fresh br id t Ht). cbn [i_state i_id i_br i_samp i_sch].
+  intros H0 Ht i0. unfold i0. rewrite (inst_start_fresh br id t H0 Ht). cbn [i_state i_id i_br i_samp i_sch].
   assert (V : forall l, map (view_of t t) l =
                         map (fun s => mkIv (is_some (fst s)) true (match fst s with Some v => v | None => 0 end)) l).
   { induction l as [|s r IH]; simpl; auto. rewrite IH. f_equal. unfold view_of. destruct (fst s); simpl; auto.
@@ -1434,7 +1443,8 @@ Proof.
   - destruct (b_sos (br_body br)); reflexivity.
   - unfold views. cbn [i_samp i_br]. apply V.
   - unfold due, views. cbn [i_samp i_br i_sch]. rewrite V. f_equal.
-    + destruct (b_sos (br_body br)); unfold is_scheduled_now; simpl; auto. rewrite Z.eqb_refl. reflexivity.
+    + destruct (b_sos (br_body br)); unfold is_scheduled_now; simpl; auto.
+      destruct (b_sd (br_body br) =? 0) eqn:E; lia.
     + induction (bound_srcs sp br srcs) as [|s r IH]; simpl; auto. rewrite IH. destruct (fst s); reflexivity.
 Qed.
 
@@ -1451,7 +1461,7 @@ Proof.
 Qed.
 
 Lemma inst_start_id t i : i_id (fst (inst_start t i)) = i_id i.
-Proof. unfold inst_start. destruct (b_sos (br_body (i_br i))); auto. destruct (schedule t false t 0 (i_sch i)). reflexivity. Qed.
+Proof. unfold inst_start. destruct (b_sos (br_body (i_br i))); auto. destruct (schedule t false _ 0 (i_sch i)). reflexivity. Qed.
 
 Definition sid_ok (s : sst) : Prop :=
   match s_cur s with Some (_, i) => i_id i < s_ninst s | None => True end.
@@ -1618,21 +1628,22 @@ Section Reachable.
 End Reachable.
 
 (* the harness vocabulary satisfies the boundedness hypothesis *)
-Lemma table_bounded D p : p_d p <= D -> body_bounded D (table_body p).
+Lemma table_bounded D p : p_d p <= D -> 0 <= p_sd p <= D -> body_bounded D (table_body p).
 Proof.
-  intros H st wk ivs. unfold table_body, table_step. cbn [b_step snd].
+  intros H Hsd. split; [exact Hsd|]. intros st wk ivs. unfold table_body, table_step. cbn [b_step snd].
   match goal with |- context [if ?b then Some (p_d p) else None] => destruct b end; auto.
 Qed.
 
 Lemma spec_of_bounded D d :
-  1 <= D -> Forall (fun p => p_d p <= D) (d_tab d) -> sp_bounded D (spec_of d).
+  1 <= D -> Forall (fun p => p_d p <= D /\ 0 <= p_sd p <= D) (d_tab d) -> sp_bounded D (spec_of d).
 Proof.
   intros H1 Hf k br Hsel.
-  assert (Hnth : forall sl, p_d (nth (Z.to_nat sl) (d_tab d) dflt_bp) <= D).
+  assert (Hnth : forall sl, p_d (nth (Z.to_nat sl) (d_tab d) dflt_bp) <= D /\
+                            0 <= p_sd (nth (Z.to_nat sl) (d_tab d) dflt_bp) <= D).
   { intros sl. destruct (nth_in_or_default (Z.to_nat sl) (d_tab d) dflt_bp) as [Hin| ->]; [|simpl; lia].
     rewrite Forall_forall in Hf. auto. }
   assert (Hb : forall sl uk, body_bounded D (br_body (mk_branch d sl uk))).
-  { intros. unfold mk_branch. cbn [br_body]. apply table_bounded. apply Hnth. }
+  { intros. unfold mk_branch. cbn [br_body]. apply table_bounded; apply Hnth. }
   unfold select_branch, spec_of in Hsel. cbn [s_cases s_default] in Hsel.
   destruct (find_case k (map (fun e => (fst (fst e), mk_branch d (snd (fst e)) (snd e))) (d_ents d))) as [b|] eqn:Ef.
   - injection Hsel as <-. clear -Ef Hb. induction (d_ents d) as [|e r IH]; simpl in Ef; [discriminate|].
